@@ -27,6 +27,7 @@ func abs(x int) int {
 var c11Opt = evGenOpt{
 	Tree:      ck.GenOpt{MinBlocks: 6, MaxBlocks: 36, Epochs: []uint64{3, 4}, Validators: []int{1, 3, 4}, Txs: true, Sup: true},
 	Votes:     true,
+	Early:     true,
 	MaxEvents: 14,
 }
 
@@ -38,7 +39,7 @@ func c11Exec(c evCase, x *pbt.Ctx) error {
 	defer h.n.Close()
 	w := h.w
 	prevBest := 0
-	longToShort, tie, voteSwitch := false, false, false
+	longToShort, tie, voteSwitch, replaySwitch := false, false, false, false
 	err = h.run(c, func(k int, desc string) error {
 		root, err := h.finalizedIdx()
 		if err != nil {
@@ -60,6 +61,9 @@ func c11Exec(c evCase, x *pbt.Ctx) error {
 			if c.Events[k].K == "v" {
 				voteSwitch = true
 			}
+			if c.Events[k].K == "b" && h.early > 0 && w.Blocks[got].Block.Height < w.Blocks[prevBest].Block.Height {
+				replaySwitch = true
+			}
 		}
 		// hash tie-break: another known tip with the same justified height and height lost
 		for i := range known {
@@ -78,6 +82,12 @@ func c11Exec(c evCase, x *pbt.Ctx) error {
 	}
 	if voteSwitch {
 		x.Class("best-changed-by-vote")
+	}
+	if h.early > 0 {
+		x.Class("early-votes")
+	}
+	if replaySwitch {
+		x.Class("best-changed-by-replayed-early-vote")
 	}
 	x.NonTrivial = longToShort || tie
 	var he *hangErr
